@@ -289,13 +289,14 @@ def verdict(make, rewire=None):
 def make_case(tier, key):
     kind = key[0]
     if kind == "flat":
-        _, N, mode, extra_i = key
+        _, N, mode, extra_i = key[:4]
+        block = key[4] if len(key) > 4 else None     # N=5: the 120 initial orders are split into blocks of 60 (one case each)
         extra = [dict(none=False, repeat=False, second=False), dict(none=True, repeat=True, second=True)][extra_i]
         pairs = [(i, j) for i in range(N) for j in range(N) if i != j and (mode == "full" or j < i)]
         if mode == "self":
             pairs = [(i, j) for i in range(N) for j in range(N) if j <= i]
         ranges = {f"e{i}{j}": (0, 1) for i, j in pairs}
-        ranges["perm"] = (0, len(list(itertools.permutations(range(N)))) - 1)
+        ranges["perm"] = (0, len(list(itertools.permutations(range(N)))) - 1) if block is None else (60 * block, 60 * block + 59)
         if N <= 3:
             ranges["rw_i"] = (0, N - 1)
             ranges["rw_j"] = (0, N - 1)
@@ -309,7 +310,7 @@ def make_case(tier, key):
             rw = (operator.index(P["rw_i"]), operator.index(P["rw_j"])) if "rw_i" in P else None
             return verdict(lambda: build_flat(N, bits, pi, extra)[0], rewire=rw)
 
-        name = f"flat[N={N}, edges {mode}, {'repeated/None/second-output inputs' if extra_i else 'plain inputs'}]"
+        name = f"flat[N={N}, edges {mode}, {'repeated/None/second-output inputs' if extra_i else 'plain inputs'}{'' if block is None else f', initial orders {60 * block}..{60 * block + 59}'}]"
     else:
         _, depth = key
         names = ["a_uses_b", "b_uses_a", "s0_cap_a", "s0_cap_b", "inner_reversed", "ctl_uses_b", "a_uses_ctl"]
@@ -342,7 +343,7 @@ def make_case(tier, key):
 def keys_for(tier):
     keys = [("flat", 2, "full", 0), ("flat", 3, "full", 0), ("flat", 3, "full", 1), ("flat", 3, "self", 0), ("flat", 4, "dag", 0), ("nested", 2), ("nested", 3)]
     if tier == "thorough":
-        keys += [("flat", 4, "full", 0), ("flat", 4, "dag", 1), ("flat", 5, "dag", 0)]
+        keys += [("flat", 4, "full", 0), ("flat", 4, "dag", 1), ("flat", 5, "dag", 0, 0), ("flat", 5, "dag", 0, 1)]
     return keys
 
 
